@@ -290,7 +290,9 @@ def boundary_docs(base, s):
         ts = t if isinstance(t, list) else [t]
         if 'integer' in ts or 'number' in ts:
             vals = [0, 1, -1, 1.0, 1.5, True, None, '1', float('nan'), float('inf'), float('-inf'), -10 ** 40, -10 ** 400, 10 ** 400,
-                    -1e308, 2 ** 53 + 1]
+                    -1e308, 2 ** 53 + 1,
+                    # integral FLOATS around the database integer limits ("integer" admits 2147483648.0, 1e30)
+                    2147483647.0, 2147483648.0, 3e9, float(2 ** 63), float(2 ** 64), 1e30, 1e308, -2147483649.0, 2 ** 31, 2 ** 63, 2 ** 64]
             for b in (sc.get('minimum'), sc.get('maximum')):
                 if b is not None:
                     ib = int(b)
